@@ -13,12 +13,21 @@ R1  species-axis agreement (T-AGREE): the sequence whose position supplies the
     index on the species axis is the same *source* at dimension creation, in
     the writer and in the reader (the file's own species list, or the enum
     everywhere).  Dimension creation is read from every `createDimension`
-    with a size in `_create_dimensions` or a nested helper (instantiated at
-    each call site; inlined helper = direct form): the size and the sequence
-    whose members label the coordinate variable (through the handle returned
-    by createVariable or `.variables[name]`, by enumerate loop or one slice
-    assignment) must be the same sequence, count-wise, after resolving locals
-    (`members = values if values is not None else list(enum_type)`).
+    with a size in `_create_dimensions`, a nested helper or a module-level
+    helper of any module that it calls (instantiated at each call site;
+    inlined helper = direct form): the size and the sequence whose members
+    label the coordinate variable (through the handle returned by
+    createVariable or `.variables[name]`, by enumerate / zip(range) /
+    range(len(S)) + `S[i]` loop or one slice assignment) must be the same
+    sequence, count-wise, after resolving locals (`members = values if values
+    is not None else list(enum_type)`; the guard-clause spelling `if values
+    is None: values = list(enum_type)` is read as that conditional,
+    DefaultsFlow).  Which arm of such a choice lays the axis out is decided
+    by value flow (value_presence): a test of a helper parameter by the
+    argument of the call, any other test where it stands; a parameter of
+    `_create_dimensions` is what every caller hands over (through callers'
+    parameters, an omitted argument = the default); only a literal None is
+    unset; a value at some calls and None at others is undecided.
     Positions in writer / reader: `enumerate(S)`, `range(len(S))`, `zip(range,
     S)`, `S.index(x)`, in the function itself, its closures and the methods
     its dispatch table hands over to; a parameter is traced through callers
@@ -726,17 +735,22 @@ def _enumerates(fn_node):
     return out
 
 
-def _canon_test(t):
+def _canon_test(t, tests=None):
+    """(('set', text of what is tested), polarity); `tests` collects text -> the tested expression"""
     pol = True
     while isinstance(t, ast.UnaryOp) and isinstance(t.op, ast.Not):
         t, pol = t.operand, not pol
     if isinstance(t, ast.Compare) and len(t.ops) == 1 and isinstance(t.comparators[0], ast.Constant) \
             and t.comparators[0].value is None and isinstance(t.ops[0], (ast.Is, ast.IsNot, ast.Eq, ast.NotEq)):
+        if tests is not None:
+            tests[norm(t.left)] = t.left
         return ('set', norm(t.left)), pol == isinstance(t.ops[0], (ast.IsNot, ast.NotEq))
+    if tests is not None:
+        tests[norm(t)] = t
     return ('set', norm(t)), pol
 
 
-def canon_seq(e, leaves, count_only=False):
+def canon_seq(e, leaves, count_only=False, tests=None):
     """canonical form of a sequence-valued expression: list()/tuple() peeled (and, when only the number of members
     matters, sorted()/reversed()); `a if c else b`, `a or b` as ('if', test, a, b) with the test in positive form"""
     while isinstance(e, ast.Call) and len(e.args) >= 1 and \
@@ -744,12 +758,14 @@ def canon_seq(e, leaves, count_only=False):
             and (count_only or not e.keywords):
         e = e.args[0]
     if isinstance(e, ast.IfExp):
-        k, pol = _canon_test(e.test)
-        x, y = canon_seq(e.body, leaves, count_only), canon_seq(e.orelse, leaves, count_only)
+        k, pol = _canon_test(e.test, tests)
+        x, y = canon_seq(e.body, leaves, count_only, tests), canon_seq(e.orelse, leaves, count_only, tests)
         return ('if', k, x, y) if pol else ('if', k, y, x)
     if isinstance(e, ast.BoolOp) and isinstance(e.op, ast.Or) and len(e.values) == 2:
-        return ('if', ('set', norm(e.values[0])), canon_seq(e.values[0], leaves, count_only),
-                canon_seq(e.values[1], leaves, count_only))
+        if tests is not None:
+            tests[norm(e.values[0])] = e.values[0]
+        return ('if', ('set', norm(e.values[0])), canon_seq(e.values[0], leaves, count_only, tests),
+                canon_seq(e.values[1], leaves, count_only, tests))
     leaves[norm(e)] = e
     return ('seq', norm(e))
 
@@ -764,6 +780,132 @@ def canon_len(e, leaves):
     return ('num', norm(e))
 
 
+def value_presence(prog, fi, e, at, depth=0, seen=None) -> str:
+    """Whether expression e, evaluated at statement `at` of function fi, is a value or None: 'set' | 'unset' |
+    'either' | 'unknown:<why>'.  Locals are replaced by the definitions that reach the use (Flow); a conditional
+    expression counts for both arms, `a or b` for b; a parameter is what every call of the function hands over
+    (through callers' parameters in turn; an omitted argument is the default); a name of the module that is a class
+    or a function, a constant other than None, a display, a comprehension and the result of a constructor are set.
+    Only the constant None is unset: an attribute or the result of another call is taken as a value, as it is where
+    an argument is compared with a literal None."""
+    seen = seen if seen is not None else set()
+    if depth > 6:
+        return 'unknown:nesting too deep'
+    got = set()
+    fl = Flow(prog, fi)
+    for v in fl.alts(e, at):
+        got.add(_presence_of(prog, fi, v, depth, seen))
+    if fl.overflow:
+        return 'unknown:too many definitions reach the test'
+    unk = sorted(g for g in got if g.startswith('unknown:'))
+    if unk:
+        return unk[0]
+    if not got:
+        return 'unknown:no definition reaches the test'
+    return got.pop() if len(got) == 1 else 'either'
+
+
+def _presence_of(prog, fi, v, depth, seen) -> str:
+    def join(parts):
+        parts = set(parts)
+        unk = sorted(g for g in parts if g.startswith('unknown:'))
+        return unk[0] if unk else (parts.pop() if len(parts) == 1 else 'either')
+    if isinstance(v, ast.Constant):
+        return 'unset' if v.value is None else 'set'
+    if isinstance(v, ast.IfExp):
+        return join([_presence_of(prog, fi, v.body, depth, seen), _presence_of(prog, fi, v.orelse, depth, seen)])
+    if isinstance(v, ast.BoolOp) and isinstance(v.op, ast.Or):
+        last = _presence_of(prog, fi, v.values[-1], depth, seen)
+        return 'set' if last == 'set' else join([last] + [_presence_of(prog, fi, x, depth, seen) for x in v.values[:-1]])
+    if isinstance(v, ast.NamedExpr):
+        return _presence_of(prog, fi, v.value, depth, seen)
+    if isinstance(v, (ast.Compare, ast.UnaryOp, ast.BinOp)) or (isinstance(v, ast.BoolOp) and isinstance(v.op, ast.And)):
+        return f'unknown:`{norm(v)[:40]}` is a computation, not a value handed over'
+    if isinstance(v, ast.Name) and '@' not in v.id:
+        if v.id in fi.params:
+            if v.id in ('self', 'cls'):
+                return 'set'
+            if (fi.qualname, v.id) in seen:
+                return 'set'        # a cycle of calls hands on what the other calls hand in
+            seen.add((fi.qualname, v.id))
+            cs = callers_of(prog, fi) + _table_callers(prog, fi)
+            if not cs:
+                return f'unknown:no call of {fi.name} found'
+            parts = []
+            for caller, call in cs:
+                if any(isinstance(a, ast.Starred) for a in call.args) or any(k.arg is None for k in call.keywords):
+                    return f'unknown:{fi.name} is called with unpacked arguments'
+                arg = _arg_for_param(fi, call, v.id)
+                if arg is None:
+                    d = _default_of(fi, v.id)
+                    if d is None:
+                        return f'unknown:a call of {fi.name} does not say what `{v.id}` is'
+                    parts.append(_presence_of(prog, fi, d, depth + 1, seen))
+                else:
+                    parts.append(value_presence(prog, caller, arg, stmt_of(call), depth + 1, seen))
+            return join(parts)
+        if '<locals>' in fi.qualname and v.id not in {x.id for x in ast.walk(fi.node)
+                                                       if isinstance(x, ast.Name) and isinstance(x.ctx, ast.Store)}:
+            r = prog.resolve_name(fi.module, v.id)
+            if r is None:
+                return f'unknown:`{v.id}` belongs to the enclosing function'
+        return 'set'
+    return 'set'
+
+
+class DefaultsFlow(Flow):
+    """Flow in which a local that is given a default under a test of itself before the use - `if x is None: x = D`
+    (also `if not x:`, `if x == None:`; nothing else in the `if` binds x, no else branch, the branch falls through) -
+    is written as the conditional expression `D if x0 is None else x0`, x0 being what x was on reaching the test, so
+    that the guard-clause spelling is decided like `x if x is not None else D` instead of giving two alternatives."""
+
+    def alts(self, e, at, depth=0):
+        if e is None or depth > 7:
+            return super().alts(e, at, depth)
+        m, folded = {}, {}
+        bound = self._bound_inside(e)
+        for x in ast.walk(e):
+            if not (isinstance(x, ast.Name) and isinstance(x.ctx, ast.Load)) or '@' in x.id or x.id in bound \
+                    or self._comp_binding(x) is not None:
+                continue
+            ds = self.reaching(x.id, at)
+            if len(ds) != 2:
+                continue
+            for dg, db in (ds, ds[::-1]):
+                if dg[0] != 'val' or db[0] not in ('val', 'param'):
+                    continue
+                gi = parent(dg[1])
+                if not isinstance(gi, ast.If) or gi.orelse or not any(y is dg[1] for y in gi.body) \
+                        or len(self._all_defs([gi], x.id)) != 1 or _ends(gi.body):
+                    continue
+                t = gi.test
+                while isinstance(t, ast.UnaryOp) and isinstance(t.op, ast.Not):
+                    t = t.operand
+                if isinstance(t, ast.Compare) and len(t.ops) == 1 and isinstance(t.comparators[0], ast.Constant) and \
+                        t.comparators[0].value is None and isinstance(t.ops[0], (ast.Is, ast.IsNot, ast.Eq, ast.NotEq)):
+                    t = t.left
+                if not (isinstance(t, ast.Name) and t.id == x.id):
+                    continue
+                at_gi = self.reaching(x.id, gi)
+                if len(at_gi) != 1 or at_gi[0][0] != db[0] or at_gi[0][1] is not db[1]:
+                    continue
+                tv, dv = self.alts(gi.test, gi, depth + 1), self.alts(dg[2], dg[1], depth + 1)
+                bv = self.alts(db[2], db[1], depth + 1) if db[0] == 'val' else [ast.Name(id=x.id, ctx=ast.Load())]
+                if len(tv) == len(dv) == len(bv) == 1:
+                    # held under a tagged name while the other locals are resolved, so that what was resolved where
+                    # the test stands is not resolved again where the use stands
+                    key = f'{x.id}@{gi.lineno}.{len(folded)}'
+                    folded[key] = ast.copy_location(ast.IfExp(test=tv[0], body=dv[0], orelse=bv[0]), x)
+                    m[id(x)] = ast.copy_location(ast.Name(id=key, ctx=ast.Load()), x)
+                break
+        if not m:
+            return super().alts(e, at, depth)
+        out = []
+        for v in super().alts(_rebuild(e, m), at, depth):
+            out.append(_rebuild(v, {id(y): folded[y.id] for y in ast.walk(v) if isinstance(y, ast.Name) and y.id in folded}))
+        return out
+
+
 def dimension_layouts(ctx, prog, m, cd):
     """{axis name: (class of the sequence that lays the axis out, node)} for every fixed-size dimension created by
     `_create_dimensions` - directly or through a nested helper that is instantiated at each of its call sites.
@@ -772,8 +914,15 @@ def dimension_layouts(ctx, prog, m, cd):
     the same sequence (count-wise: list()/sorted() do not change a count)."""
     out = {}
     fns = [cd] + [f for q, f in m.functions.items() if q.startswith(cd.qualname + '.<locals>.')]
+    # a module-level helper (of any module) that _create_dimensions calls and that creates a dimension stands where
+    # the nested helper stood: instantiated at each call
+    for cc in calls_in(cd.node):
+        g = resolve_call(prog, cd, cc)
+        if g is not None and g.cls is None and not any(g == x for x in fns) and any(
+                isinstance(x.func, ast.Attribute) and x.func.attr == 'createDimension' for x in calls_in(g.node)):
+            fns.append(g)
     for f in fns:
-        fl = Flow(prog, f)
+        fl = DefaultsFlow(prog, f)
         for c in calls_in(f.node):
             if not (isinstance(c.func, ast.Attribute) and c.func.attr == 'createDimension' and len(c.args) >= 1):
                 continue
@@ -816,6 +965,19 @@ def dimension_layouts(ctx, prog, m, cd):
                                 isinstance(tgt.elts[0], ast.Name) and tgt.elts[0].id == t.slice.id:
                             src = (it.args[1], owner if isinstance(owner, ast.stmt) else stmt_of(owner))
                             break
+                        if isinstance(it, ast.Call) and call_name(it) == 'range' and len(it.args) == 1 and \
+                                isinstance(it.args[0], ast.Call) and call_name(it.args[0]) == 'len' and \
+                                len(it.args[0].args) == 1 and isinstance(tgt, ast.Name) and tgt.id == t.slice.id:
+                            # the label stored must be a member of that very sequence: `S[i]`, also through a local
+                            own_at = owner if isinstance(owner, ast.stmt) else stmt_of(owner)
+                            seqs = {untag(norm(a)) for a in fl.alts(it.args[0].args[0], own_at)}
+                            bases = {untag(norm(y.value)): y.value for a in fl.alts(stx.value, stx) for y in ast.walk(a)
+                                     if isinstance(y, ast.Subscript) and untag(norm(y.slice)) == tgt.id}
+                            if bases and set(bases) <= seqs:
+                                src = (it.args[0].args[0], own_at)
+                            elif len(bases) == 1 and not set(bases) & seqs:
+                                src = (next(iter(bases.values())), own_at)      # counted along S, labelled from another
+                            break
                 elif isinstance(t.slice, (ast.Slice, ast.Constant)) and (isinstance(t.slice, ast.Slice) or t.slice.value is Ellipsis):
                     v = stx.value
                     for _ in range(3):
@@ -837,7 +999,8 @@ def dimension_layouts(ctx, prog, m, cd):
                 ctx.undecided('C03-R1', f, norm(c)[:60], 'size or labels of the dimension have several possible sources')
             c_size = canon_len(sz[0], leaves)
             c_count = canon_seq(lb[0], leaves, count_only=True)
-            c_order = canon_seq(lb[0], leaves)
+            tests = {}
+            c_order = canon_seq(lb[0], leaves, tests=tests)
             ok = c_size == c_count
             ctx.ob('C03-R1', f, 'dimension length and coordinate labels come from one iterable', ok,
                    f'size and labels from {untag(norm(lb[0]))[:70]}' if ok else
@@ -853,23 +1016,34 @@ def dimension_layouts(ctx, prog, m, cd):
                         b = {p_: _arg_for_param(f, cc, p_) for p_ in f.params}
                         sites.append(({k: (v if v is not None else _default_of(f, k)) for k, v in b.items()}, cc))
 
-            def inst(t, binds):
+            def inst(t, binds, cc):
+                """the sequence the choice `t` comes to at this site, or a text saying why that cannot be told: a
+                test of a parameter of the helper is decided by the argument of the call, any other test by what the
+                tested value is where the dimension is created (value_presence: a parameter of _create_dimensions by
+                what its callers hand over)"""
                 if t[0] == 'if':
                     kind, ptxt = t[1]
                     if ptxt in binds:
                         a_ = binds[ptxt]
-                        given = a_ is not None and not (isinstance(a_, ast.Constant) and a_.value is None)
-                        return inst(t[2] if given else t[3], binds)
-                    return None
+                        how = 'unset' if a_ is None else value_presence(prog, cd, a_, stmt_of(cc))
+                    elif ptxt in tests:
+                        how = value_presence(prog, f, tests[ptxt], st)
+                    else:
+                        how = 'unknown:test not understood'
+                    if how == 'set':
+                        return inst(t[2], binds, cc)
+                    if how == 'unset':
+                        return inst(t[3], binds, cc)
+                    return f'`{ptxt}` is {"a value at some calls and None at others" if how == "either" else "not traced: " + how[8:]}'
                 return t
 
             for binds, cc in sites:
                 n_ = binds.get(nm.id) if isinstance(nm, ast.Name) and nm.id in binds else nm
                 if not (isinstance(n_, ast.Constant) and isinstance(n_.value, str)):
                     ctx.undecided('C03-R1', cd, norm(cc)[:60], 'name of the dimension created is not a constant')
-                leaf = inst(c_order, binds)
-                if leaf is None:
-                    ctx.undecided('C03-R1', cd, norm(cc)[:60], 'cannot tell which sequence lays out the dimension at this call')
+                leaf = inst(c_order, binds, cc)
+                if isinstance(leaf, str):
+                    ctx.undecided('C03-R1', cd, norm(cc)[:60], 'cannot tell which sequence lays out the dimension at this call: ' + leaf)
                 e_ = leaves[leaf[1]]
                 if isinstance(e_, ast.Name) and e_.id in binds and binds[e_.id] is not None:
                     out[n_.value] = (classify_axis_source(prog, cd, binds[e_.id]), cc, binds[e_.id], cd)
